@@ -292,13 +292,17 @@ func DrawFieldOfType(rt *rapid.T, e *Enc, ty int, tag int, depth int, label stri
 	case WString1:
 		n := rapid.SampledFrom([]int{0, 1, 2, 11, 12, 13, 255}).Draw(rt, label+".n")
 		e.Head(WString1, tag)
+		o := len(e.Buf)
 		e.Buf = append(e.Buf, byte(n))
+		e.site(o, 0)
 		e.Buf = append(e.Buf, fillBytes(rt, n, label)...)
 	case WString4:
 		compound = true
 		n := rapid.SampledFrom([]int{0, 1, 255, 256, 300, 70000}).Draw(rt, label+".n")
 		e.Head(WString4, tag)
+		o := len(e.Buf)
 		e.u32(uint32(n))
+		e.site(o, 1)
 		e.Buf = append(e.Buf, fillBytes(rt, n, label)...)
 	case WSimpleList:
 		compound = true
@@ -308,7 +312,9 @@ func DrawFieldOfType(rt *rapid.T, e *Enc, ty int, tag int, depth int, label stri
 		compound = true
 		n := rapid.IntRange(0, 3).Draw(rt, label+".n")
 		e.Head(WList, tag)
+		o := len(e.Buf)
 		e.Int(int64(n), 0)
+		e.site(o, 2)
 		for i := 0; i < n; i++ {
 			DrawField(rt, e, 0, depth+1, label+"[]")
 		}
@@ -316,7 +322,9 @@ func DrawFieldOfType(rt *rapid.T, e *Enc, ty int, tag int, depth int, label stri
 		compound = true
 		n := rapid.IntRange(0, 3).Draw(rt, label+".n")
 		e.Head(WMap, tag)
+		o := len(e.Buf)
 		e.Int(int64(n), 0)
+		e.site(o, 2)
 		for i := 0; i < n; i++ {
 			DrawField(rt, e, 0, depth+1, label+".k")
 			DrawField(rt, e, 1, depth+1, label+".v")
